@@ -60,7 +60,10 @@ impl SequenceNumberSet {
                     let bitmap_num = delta_n / 32;
                     let mask = 1 << (31 - delta_n % 32);
                     if self.set.bitmap[bitmap_num] & mask == mask {
-                        return Some(self.set.base + delta_n as i64);
+                        // numbers beyond the sequence number range cannot name a change
+                        if let Some(seq_num) = self.set.base.checked_add(delta_n as i64) {
+                            return Some(seq_num);
+                        }
                     }
                 }
                 None
